@@ -25,6 +25,7 @@ type Universe struct {
 	Suffix   string
 	Create   *ref.CreateSpec
 	MaxDelta int64
+	BigDup   bool // the duplicate create "Cdup" carries a delta larger than MaxDeltaSize
 	Ops      map[string]*ref.Op // alphabet by label
 	Labels   []string
 	Proto    protocol.Protocol
@@ -124,6 +125,8 @@ func NewUniverse(rng *hx.Rng, code uint64, p protocol.Protocol, keyTypes []strin
 	}
 	u.Create = &ref.CreateSpec{Code: code, RecoveryCommitment: u.R[0].Commitment(code),
 		Delta: ref.Delta(u.U[0].Commitment(code), d0), AnchorOrigin: "origin-" + fmt.Sprint(rng.Intn(1000))}
+	ao := u.Create.AnchorOrigin.(string)
+	u.BigDup = ao[len(ao)-1]%2 == 1 // no extra PRNG draw: earlier streams stay as they were
 	u.Suffix = u.Create.Suffix()
 	return u
 }
@@ -144,7 +147,13 @@ func (u *Universe) MkCreate(label, status string) *ref.Op {
 	switch status {
 	case ref.DeltaMismatch:
 		// same suffix data, different delta
-		other := ref.Delta(spec.Delta["updateCommitment"].(string), []interface{}{patchAddServices(svcEntry("evil", "x", "https://evil.example"))})
+		endpoint := "https://evil.example"
+		if u.BigDup {
+			// the other delta is also larger than the protocol's delta limit (seeded C02-19): an anchored create is read in batch
+			// mode, where the delta is not validated; the applier then finds it unusable and the create still defines the DID
+			endpoint += "/" + strings.Repeat("a", int(u.Proto.MaxDeltaSize)+64)
+		}
+		other := ref.Delta(spec.Delta["updateCommitment"].(string), []interface{}{patchAddServices(svcEntry("evil", "x", endpoint))})
 		spec.DeltaHashOverride = ref.HashModel(u.Code, spec.Delta)
 		spec.Delta = other
 		patches = other["patches"].([]interface{})
